@@ -409,3 +409,87 @@ func keyTiedByEquality(fn *ssa.Function, mu *ssa.MapUpdate, pl mapPlace) bool {
 	}
 	return false
 }
+
+// checkF10: json.Unmarshal(b, &p) with p a pointer variable sets p to nil for the document
+// `null` (which is valid, canonical JSON) and reports no error. Every later dereference of p
+// (field access, method call through it) must be dominated by a nil test - or the decoder must
+// be handed p itself, which decodes into the object p points to and leaves p alone.
+func checkF10(c *fw.Ctx) {
+	rule := "F10 null-into-pointer"
+	n := 0
+	for _, fn := range c.P.SrcFuncs() {
+		for _, call := range fw.Calls(fn) {
+			name := fw.CalleeName(call)
+			if name != "encoding/json.Unmarshal" && !strings.HasSuffix(name, "json.Decoder).Decode") {
+				continue
+			}
+			args := call.Common().Args
+			target := args[len(args)-1]
+			if mi, ok := target.(*ssa.MakeInterface); ok {
+				target = mi.X
+			}
+			al, ok := target.(*ssa.Alloc)
+			if !ok {
+				continue
+			}
+			pp, ok := al.Type().Underlying().(*types.Pointer)
+			if !ok {
+				continue
+			}
+			if _, inner := pp.Elem().Underlying().(*types.Pointer); !inner {
+				continue // the address of a struct, map or slice: null leaves / zeroes a value, no pointer to lose
+			}
+			n++
+			construct := fw.FuncName(fn) + ": a pointer filled by the JSON decoder is tested before it is dereferenced"
+			bad := ""
+			for _, ref := range *al.Referrers() {
+				ld, isLoad := ref.(*ssa.UnOp)
+				if !isLoad || ld.Op != token.MUL || !reachesFrom(call, ld) {
+					continue
+				}
+				for _, use := range *ld.Referrers() {
+					deref := false
+					switch u := use.(type) {
+					case *ssa.FieldAddr:
+						deref = u.X == ssa.Value(ld)
+					case *ssa.UnOp:
+						deref = u.Op == token.MUL && u.X == ssa.Value(ld)
+					}
+					if deref && !fw.KnownNonNil(ld, use.Block()) {
+						bad = c.P.Pos(fw.InstrPos(use))
+					}
+				}
+			}
+			if bad != "" {
+				c.Fail(rule, construct, c.P.Pos(call.Pos()), "the decoder is given the address of the pointer variable "+al.Comment+": the document `null` sets it to nil without an error, and it is dereferenced at "+bad+" without a nil test (nil pointer dereference on remote input)")
+			} else {
+				c.Ok(rule, construct, c.P.Pos(call.Pos()), "")
+			}
+		}
+	}
+	c.Count("decoder calls into pointer variables", n)
+}
+
+// reachesFrom: instruction b can execute after instruction a (same block later, or a reachable block).
+func reachesFrom(a, b ssa.Instruction) bool {
+	if a.Block() == b.Block() {
+		ia, ib := -1, -1
+		for i, x := range a.Block().Instrs {
+			if x == a {
+				ia = i
+			}
+			if x == b {
+				ib = i
+			}
+		}
+		if ib > ia {
+			return true
+		}
+	}
+	for _, s := range a.Block().Succs {
+		if fw.ReachableFrom(s, nil)[b.Block()] {
+			return true
+		}
+	}
+	return false
+}
